@@ -12,6 +12,7 @@ import (
 	"strconv"
 	"strings"
 	"sync"
+	"sync/atomic"
 	"syscall"
 	"time"
 
@@ -26,6 +27,8 @@ type part struct {
 	Race    bool
 	Workers int
 }
+
+var unconfirmedDeaths atomic.Int64
 
 type partResult struct {
 	sums   []*Summary
@@ -312,7 +315,14 @@ func confirmCrash(prop, tier string, seed uint64, p *part, idx int, first *worke
 			fmt.Fprintf(os.Stderr, "note: a worker of part %s ran out of memory at index %d; the index runs clean alone, the worker is restarted after it\n", p.Name, idx)
 			return nil, nil
 		}
-		return nil, fmt.Errorf("worker died at %s index %d (%s) but the index runs clean alone: not confirmed", p.Name, idx, tail(first.stderr, 1500))
+		// Died or hung in the company of the runs before it, fine on its own. The usual reason: a
+		// run was aborted part-way (step budget, deadlock) by a panic through the code under test,
+		// which left something of that process behind (a lock held, a channel never closed). Only a
+		// confirmed crash or hang is a violation; a few unconfirmed ones are noted and the worker
+		// is restarted after the index, many are a harness error (runParent).
+		unconfirmedDeaths.Add(1)
+		fmt.Fprintf(os.Stderr, "note: a worker of part %s died or hung at index %d; the index runs clean alone, the worker is restarted after it\n", p.Name, idx)
+		return nil, nil
 	}
 	kind, msg := crashKind(wo)
 	// frames of plenc in the crash?
@@ -532,6 +542,10 @@ func runParent(prop, tier string) int {
 	}
 	if frac > 0.2 {
 		fmt.Fprintf(os.Stderr, "HARNESS ERROR: %.0f%% of generated operations had no solo oracle: the workload is degenerate\n", frac*100)
+		return 2
+	}
+	if n := unconfirmedDeaths.Load(); n > 8 {
+		fmt.Fprintf(os.Stderr, "HARNESS ERROR: %d workers died or hung without the index reproducing alone\n", n)
 		return 2
 	}
 	if total.FreeRun > 0 {
